@@ -167,12 +167,15 @@ class StmtMixin:
             for it in v.obj[1]:
                 arr = z3.Store(arr, pack(it, t.t)[0], z3.BoolVal(True))
             return VSet(t.t, arr)
-        if isinstance(t, MapT) and isinstance(v, VDict) and not v.entries:
-            return self.empty_map(t)
+        if isinstance(t, MapT) and isinstance(v, VDict):
+            m = self.empty_map(t)
+            for kk, vv in v.entries:
+                self.setitem(m, kk, vv)
+            return m
         return v
 
     def empty_map(self, t: MapT) -> VMap:
-        ks = flat_sorts(t.k)[0]
+        ks = key_sort(t.k)
         return VMap(t.k, t.v, z3.K(ks, z3.BoolVal(False)), [self.fresh_const("map0", z3.ArraySort(ks, s)) for s in flat_sorts(t.v)])
 
     def ex_AugAssign(self, st, env):
@@ -296,7 +299,7 @@ class StmtMixin:
             return self.fresh(f"{name}@L", SetT(v.elem))
         if isinstance(v, VMap):
             nm = self.fresh_name(f"{name}@L")
-            ks = flat_sorts(v.k)[0]
+            ks = key_sort(v.k)
             return VMap(v.k, v.v, z3.Const(nm + "!p", z3.ArraySort(ks, z3.BoolSort())), [z3.Const(f"{nm}!{i}", z3.ArraySort(ks, s)) for i, s in enumerate(flat_sorts(v.v))])
         if isinstance(v, VTuple):
             return VTuple([self.havoc_like(f"{name}.{i}", x, None, env) for i, x in enumerate(v.items)])
